@@ -312,6 +312,35 @@ def exits(ck, P):
               "fewer BufError exits than the input-exhaustion and output-failure sites", where(fn))
 
 
+def final_flush(ck, P, R="CUT/back-final-flush"):
+    """When back() leaves its loop - for whatever reason - the bytes that sit in the window but were not yet handed to the
+    output callback are handed over (zlib: `if (left < state->wsize) out(...)`): the call is conditional on `left` alone,
+    never on the return code, otherwise output decoded before a data error or before input ran out is lost."""
+    fn = P.fn(BACK)
+    if not ck.anchor("fn back", fn):
+        return
+    ck.use_fn(fn)
+    sws = fn.enum_switches("inflate::Mode", 10)
+    if not ck.anchor("mode switch of back()", len(sws) == 1, where(fn)):
+        return
+    sw = sws[0]
+    rets = [b for b, k in fn.exits() if k == "return"]
+    # indirect calls (the out callback) from which the loop head is no longer reachable: the final flush
+    finals = [c for c in fn.live_calls() if c.callee is None and sw not in fn.reach_from(c.bb)]
+    if not ck.anchor("output callback after the loop of back()", len(finals) >= 1, where(fn)):
+        return
+    bad = []
+    for c in finals:
+        for a in fn.dominating_atoms(c.bb):
+            s_ = sig.sig(a, fn)
+            if {"StreamEnd", "DataError", "BufError", "ret"} & set(map(str, s_.names)) or (s_.variants and {"StreamEnd"} & set(s_.variants)):
+                bad.append(mir.atom_str(a, fn)[:60])
+    ok_left = any("left" in sig.sig(a, fn).names for c in finals for a in fn.dominating_atoms(c.bb))
+    ck.decide(ok_left and not bad, R, "back:final-out", "conditional on `left < window size` only",
+              "the final hand-over of decoded bytes in back() depends on %s: bytes decoded before an error / before the input ran out "
+              "never reach the output callback" % (sorted(set(bad)) or "no `left` test"), where(fn, finals[0].line))
+
+
 def entry_reset(ck, P, R="CUT/back-entry-reset"):
     """inflateBack starts every call from a clean decoder: before the mode loop is entered the mode is set to Type, the
     last-block flag is cleared and the window is declared empty (zlib: `state->mode = TYPE; state->last = 0;
@@ -366,6 +395,7 @@ def run(ck):
               "back() builds tables with %s, dispatch with %s" % (tabs(BACK), tabs(decoders.DISPATCH)))
     raw_guards(ck, P)
     entry_reset(ck, P)
+    final_flush(ck, P)
     # the window has no padding: the fast loop of inflateBack may only run (and continue) with the full margins
     from . import c02
     c02.guard_calls(ck, P, only={"fast-entry@back"})
